@@ -99,7 +99,7 @@ func TestCheck(t *testing.T) {
 	run.Assume("a by-construction-valid query uses unique response names except for identical (name,args) duplicates; fragments on object types always carry the enclosing type as type condition")
 	reactive.WriteThenReadDelay = 0 // only delays re-runs; nothing here invalidates
 	nq := run.N(40, 100)
-	n := run.N(1000, 20000)
+	n := run.N(1000, 60000)
 	run.Each(n, 8, func(i int) {
 		fmt.Printf("CASE %d\n", i)
 		l := &local{counts: map[string]int{}}
